@@ -184,8 +184,8 @@ def step (code : Array Byte) (s : VM) : Step :=
     | some (.ok (g, memGas, refund)) =>
     if s.gas < g then .fail .oog
     else
-      let s := { s with gas := s.gas - g, memGas := memGas, refund := refund }
-      let s := if msz > 0 then { s with mem := memResize s.mem msz } else s
+      -- `mem.Resize(memorySize)` (a no-op for size 0, so the `if memorySize > 0` guard is not modelled)
+      let s := { s with gas := s.gas - g, memGas := memGas, refund := refund, mem := memResize s.mem msz }
       if info.jumps || info.reverts then .unsupported op else
       match execute info code s with
       | .unsupported => .unsupported op
